@@ -6,9 +6,9 @@ from worlds.stream import make_cfg, observe, CutSock
 ID = "C06"
 LEVEL = "exploration"
 DESIGN_REF = "DESIGN.md §4 C06"
-QUICK_RUNS = 6400
+QUICK_RUNS = 48000
 THOROUGH_MIN_RUNS = 20000
-BATCH = 100
+BATCH = 250
 CASE_WALL_S = 30.0
 RULE = ("case = a generated request stream (1-3 pipelined messages, grammar + obfuscation operators, or a corpus "
         "file from tests/requests) x parser limits; the real RequestParser reads it through SocketUnreader from a "
